@@ -1,5 +1,6 @@
 import HcipyVerif.Model.Proto
 import HcipyVerif.Model.PhaseOptics
+import HcipyVerif.Model.PassiveOptics
 
 /-!
 Line-protocol front end of the C07 model.
@@ -8,10 +9,40 @@ Line-protocol front end of the C07 model.
 C07 coef <family> fwd|bwd <n|->     -> ok κ          exponent coefficient of the multiplier
 C07 magnify m1 m2                   -> ok w d        weight factor |m1 m2| and squared field divisor
 C07 magnifyold m1 m2                -> ok d | err value   (unrepaired: sqrt of the signed product)
+C07 mask fwd|bwd [E] [t] [w]        -> ok [E'] pin pout  Apodizer / any phase-only element: E·t (E·conj t), total power
+                                                         before / after **with the input weights** (complex lists are flat re,im,…)
+C07 maskpol tensor [t] [J] [S] | vector [t] [E]  -> ok [I',Q',U',V',I,Q,U,V]  Stokes vector of one pixel after / before a scalar
+                                                         transmission t (Jones-matrix pixel with input Stokes vector S / Jones-vector pixel)
+C07 powerpol tensor [t] [J…] [S] [w] | vector [t] [E…] [w] -> ok P P'   `Wavefront.total_power` (Σ I_i w_i) of a polarised wavefront
+                                                         before / after the per-pixel scalar transmission t (flat lists: 8 / 4 reals per pixel)
+C07 fibre [E] [m] [w]               -> ok [a] pin mnorm [back]   a = Σ conj(E) w m, Σ|E|²w, Σ|m|²w, power of a·m
+C07 knife N M start [mask] [apod] [lyot] [x] -> ok [row']  lyot·crop(ifft(fft(pad(x·apod))·mask)), M ∣ 4 (Gaussian kernels)
+C07 knifet N M start [ker] [mask] [apod] [lyot] [x] -> ok [row']  the same `knifeRow` for any M > 0, the forward kernel
+                                                         `exp(-2πi k/M)`, k < M, supplied as a table (backward kernel = its conjugate)
 ```
 -/
 namespace HcipyVerif.Driver.C07
-open HcipyVerif.Proto HcipyVerif.PhaseOptics
+open HcipyVerif.Proto HcipyVerif.PhaseOptics HcipyVerif.Passive HcipyVerif.Jones
+
+def cxList? : List Rat → Option (List (Cx Rat))
+  | [] => some []
+  | a :: b :: rest => (cxList? rest).map fun l => ⟨a, b⟩ :: l
+  | _ => none
+
+def cxFn (l : List (Cx Rat)) : Nat → Cx Rat := fun i => l.getD i ⟨0, 0⟩
+def ratFn (l : List Rat) : Nat → Rat := fun i => l.getD i 0
+def flat (f : Nat → Cx Rat) (n : Nat) : List Rat := (List.range n).flatMap fun i => [(f i).re, (f i).im]
+/-- a kernel `ℤ → ℂ` of period `M` read from a table of `M` values -/
+def tableKer (l : List (Cx Rat)) (M : Nat) (n : Int) : Cx Rat := l.getD ((n % (M : Int)).toNat) ⟨0, 0⟩
+def j2List? : List Rat → Option (List (J2 Rat))
+  | [] => some []
+  | a :: b :: c :: d :: e :: f :: g :: h :: rest => (j2List? rest).map fun l => ⟨⟨a, b⟩, ⟨c, d⟩, ⟨e, f⟩, ⟨g, h⟩⟩ :: l
+  | _ => none
+def v2List? : List Rat → Option (List (V2 Rat))
+  | [] => some []
+  | a :: b :: c :: d :: rest => (v2List? rest).map fun l => ⟨⟨a, b⟩, ⟨c, d⟩⟩ :: l
+  | _ => none
+def parseCx? (s : String) : Option (List (Cx Rat)) := (parseRatList? s).bind cxList?
 
 structure St where
   dummy : Unit := ()
@@ -34,6 +65,70 @@ def step (st : St) : List String → St × String
       | some d => (st, "ok " ++ showRat d)
       | none => (st, "err value")
     | _, _ => (st, "bad-op")
+  | ["mask", dir, e, tt, w] =>
+    match parseCx? e, parseCx? tt, parseRatList? w with
+    | some e, some tt, some w =>
+      if e.length ≠ tt.length ∨ e.length ≠ w.length ∨ (dir ≠ "fwd" ∧ dir ≠ "bwd") then (st, "bad-op") else
+      let n := e.length
+      let out := if dir == "fwd" then maskFwd (cxFn tt) (cxFn e) else maskBwd (cxFn tt) (cxFn e)
+      (st, s!"ok {showRatList (flat out n)} {showRat (power (cxFn e) (ratFn w) n)} {showRat (power out (ratFn w) n)}")
+    | _, _, _ => (st, "bad-op")
+  | ["maskpol", "tensor", t, j, sv] =>
+    match parseRatList? t, parseRatList? j, parseRatList? sv with
+    | some [tr, ti], some [a, b, c, d, e, f, g, h], some [s0, s1, s2, s3] =>
+      let e : J2 Rat := ⟨⟨a, b⟩, ⟨c, d⟩, ⟨e, f⟩, ⟨g, h⟩⟩
+      let o := jonesStokes (maskJ ⟨tr, ti⟩ e) ⟨s0, s1, s2, s3⟩
+      let i := jonesStokes e ⟨s0, s1, s2, s3⟩
+      (st, "ok " ++ showRatList [o.i, o.q, o.u, o.v, i.i, i.q, i.u, i.v])
+    | _, _, _ => (st, "bad-op")
+  | ["maskpol", "vector", t, ev] =>
+    match parseRatList? t, parseRatList? ev with
+    | some [tr, ti], some [a, b, c, d] =>
+      let e : V2 Rat := ⟨⟨a, b⟩, ⟨c, d⟩⟩
+      let o := vecStokes (maskV ⟨tr, ti⟩ e)
+      let i := vecStokes e
+      (st, "ok " ++ showRatList [o.i, o.q, o.u, o.v, i.i, i.q, i.u, i.v])
+    | _, _ => (st, "bad-op")
+  | ["powerpol", "tensor", t, j, sv, w] =>
+    match parseCx? t, (parseRatList? j).bind j2List?, parseRatList? sv, parseRatList? w with
+    | some t, some j, some [s0, s1, s2, s3], some w =>
+      if t.length ≠ j.length ∨ w.length ≠ j.length then (st, "bad-op") else
+      let z : J2 Rat := ⟨⟨0, 0⟩, ⟨0, 0⟩, ⟨0, 0⟩, ⟨0, 0⟩⟩
+      let e : Nat → J2 Rat := fun i => j.getD i z
+      (st, s!"ok {showRat (powerJ e ⟨s0, s1, s2, s3⟩ (ratFn w) j.length)} {showRat (powerJ (fun i => maskJ (cxFn t i) (e i)) ⟨s0, s1, s2, s3⟩ (ratFn w) j.length)}")
+    | _, _, _, _ => (st, "bad-op")
+  | ["powerpol", "vector", t, ev, w] =>
+    match parseCx? t, (parseRatList? ev).bind v2List?, parseRatList? w with
+    | some t, some ev, some w =>
+      if t.length ≠ ev.length ∨ w.length ≠ ev.length then (st, "bad-op") else
+      let z : V2 Rat := ⟨⟨0, 0⟩, ⟨0, 0⟩⟩
+      let e : Nat → V2 Rat := fun i => ev.getD i z
+      (st, s!"ok {showRat (powerV e (ratFn w) ev.length)} {showRat (powerV (fun i => maskV (cxFn t i) (e i)) (ratFn w) ev.length)}")
+    | _, _, _ => (st, "bad-op")
+  | ["fibre", e, m, w] =>
+    match parseCx? e, parseCx? m, parseRatList? w with
+    | some e, some m, some w =>
+      if e.length ≠ m.length ∨ e.length ≠ w.length then (st, "bad-op") else
+      let n := e.length
+      let a := fibreAmp (cxFn e) (cxFn m) (ratFn w) n
+      (st, s!"ok {showRatList [a.re, a.im]} {showRat (power (cxFn e) (ratFn w) n)} {showRat (power (cxFn m) (ratFn w) n)} {showRat (power (fibreBack a (cxFn m)) (ratFn w) n)}")
+    | _, _, _ => (st, "bad-op")
+  | ["knife", nn, mm, start, mask, apod, lyot, x] =>
+    match parseNat? nn, parseNat? mm, parseNat? start, parseCx? mask, parseCx? apod, parseCx? lyot, parseCx? x with
+    | some n, some m, some s, some mask, some apod, some lyot, some x =>
+      if (m ≠ 1 ∧ m ≠ 2 ∧ m ≠ 4) ∨ s + n > m ∨ mask.length ≠ m ∨ apod.length ≠ n ∨ lyot.length ≠ n ∨ x.length ≠ n then (st, "bad-op") else
+      let xin : Nat → Cx Rat := fun i => cxFn x i * cxFn apod i
+      let row := knifeRow n m s (gaussKerF m) (gaussKerB m) ⟨1 / (m : Rat), 0⟩ (cxFn mask) xin
+      (st, "ok " ++ showRatList (flat (fun j => cxFn lyot j * row j) n))
+    | _, _, _, _, _, _, _ => (st, "bad-op")
+  | ["knifet", nn, mm, start, ker, mask, apod, lyot, x] =>
+    match parseNat? nn, parseNat? mm, parseNat? start, parseCx? ker, parseCx? mask, parseCx? apod, parseCx? lyot, parseCx? x with
+    | some n, some m, some s, some ker, some mask, some apod, some lyot, some x =>
+      if m = 0 ∨ s + n > m ∨ ker.length ≠ m ∨ mask.length ≠ m ∨ apod.length ≠ n ∨ lyot.length ≠ n ∨ x.length ≠ n then (st, "bad-op") else
+      let xin : Nat → Cx Rat := fun i => cxFn x i * cxFn apod i
+      let row := knifeRow n m s (tableKer ker m) (fun k => (tableKer ker m k).conj) ⟨1 / (m : Rat), 0⟩ (cxFn mask) xin
+      (st, "ok " ++ showRatList (flat (fun j => cxFn lyot j * row j) n))
+    | _, _, _, _, _, _, _, _ => (st, "bad-op")
   | _ => (st, "bad-op")
 
 end HcipyVerif.Driver.C07
